@@ -81,14 +81,15 @@ Section Handler.
 
   Definition set_position_and_len (s : slider) (p l : N) : res slider :=   (* set_position_and_len *)
     if negb (l =? 0) then
-      if u32_max <? p + l then Crash SitePosPlusLen
+      (* since the fix: checked_add; an end that does not fit u32 is the same error as one past the trace *)
+      if u32_max <? p + l then Err SetSubtraceLenAndPosFailed
       else if len_N (s_trace s) <? p + l then Err SetSubtraceLenAndPosFailed
       else Ok {| s_trace := s_trace s; s_pos := p; s_len := l; s_seen := 0 |}
     else Ok {| s_trace := s_trace s; s_pos := p; s_len := l; s_seen := 0 |}.
 
   Definition set_subtrace_len (s : slider) (l : N) : res slider :=         (* set_subtrace_len *)
-    if len_N (s_trace s) <? s_pos s then Crash SiteRemainder
-    else if (len_N (s_trace s) - s_pos s) <? l then Err SetSubtraceLenFailed
+    (* since the fix: saturating_sub (N subtraction truncates at 0 likewise) *)
+    if (len_N (s_trace s) - s_pos s) <? l then Err SetSubtraceLenFailed
     else Ok {| s_trace := s_trace s; s_pos := s_pos s; s_len := l; s_seen := 0 |}.
 
   Definition subtrace_len (s : slider) : N := s_len s - s_seen s.          (* subtrace_len *)
@@ -98,7 +99,7 @@ Section Handler.
     match nth_N (s_trace s) p with
     | None => Err NoElementAtPosition
     | Some (SCall (Executed (VRStream _ g))) => Ok g
-    | Some (SAp gens) => match gens with g :: _ => Ok g | [] => Crash SiteApGenerationIndex end
+    | Some (SAp gens) => match gens with g :: _ => Ok g | [] => Err NoStreamState end   (* since the fix: was an index panic *)
     | Some _ => Err NoStreamState
     end.
 
